@@ -20,6 +20,7 @@ import (
 	"fmt"
 	"path/filepath"
 	"regexp"
+	"sort"
 	"strconv"
 	"strings"
 	"sync"
@@ -778,32 +779,69 @@ func (iBuilder *IndexBuilder) ReplaceByNoClearIndexId(noClearIndex uint64) (stri
 	return oldPath, iBuilder.lock, nil
 }
 
+// DropSeries takes the items of the deleted series out of the index and then forgets the deleted
+// tsids on disk. Use DropSeriesOfPolicy when the retention policy has more than one index.
 func (iBuilder *IndexBuilder) DropSeries() error {
-	iBuilder.mu.Lock()
-	defer iBuilder.mu.Unlock()
-	e := errors.New("idx is nil or not be *MergeSetIndex")
-	if idx, ok := iBuilder.GetPrimaryIndex().(*MergeSetIndex); ok {
-		deleteMergeSet := idx.DeleteMergeSet()
-		if deleteMergeSet == nil {
-			logger.GetLogger().Info("new db and didn't execute drop, no need to delete")
-			return nil
-		}
-		deleteMergeSet.tb.SetLabelForDeletePart()
+	return DropSeriesOfPolicy([]*IndexBuilder{iBuilder})
+}
 
-		delTsids := idx.GetDeletedTSIDs()
-		if delTsids == nil || delTsids.Len() <= 0 {
-			return nil
+// DropSeriesOfPolicy takes the items of the deleted series out of every index of one retention
+// policy. The indexes share the policy's deleted-tsid index: its parts are labelled first, then
+// every index is rewritten without the tsids that are deleted at that moment, and only when all
+// of them have been rewritten are the labelled parts removed. Emptying the deleted-tsid index
+// after the first index (or although one of them could not be rewritten, e.g. because its parts
+// are being merged) would bring the dropped series of the other indexes back at the next start.
+func DropSeriesOfPolicy(iBuilders []*IndexBuilder) error {
+	ibs := append([]*IndexBuilder(nil), iBuilders...)
+	sort.Slice(ibs, func(i, j int) bool { return ibs[i].GetIndexID() < ibs[j].GetIndexID() })
+	idxs := make([]*MergeSetIndex, 0, len(ibs))
+	for _, iBuilder := range ibs {
+		iBuilder.mu.Lock()
+		defer iBuilder.mu.Unlock()
+		idx, ok := iBuilder.GetPrimaryIndex().(*MergeSetIndex)
+		if !ok {
+			return errors.New("idx is nil or not be *MergeSetIndex")
 		}
-
-		if e = idx.tb.RemoveItemsByDelTsidsFromParts(delTsids); e == nil {
-			// the caches still name the purged tsids (the series-key cache is also saved at close):
-			// once the deleted-tsid table is emptied nothing would subtract them any more
-			if e = idx.ClearCache(); e == nil {
-				deleteMergeSet.tb.RemoveDeletedPart()
+		idxs = append(idxs, idx)
+	}
+	var deleteMergeSet *MergeSetIndex
+	var withDeleted *MergeSetIndex
+	for _, idx := range idxs {
+		if d := idx.DeleteMergeSet(); d != nil {
+			if deleteMergeSet != nil && deleteMergeSet != d {
+				return errors.New("the indexes of one retention policy must share one deleted-tsid index")
 			}
+			deleteMergeSet, withDeleted = d, idx
 		}
 	}
-	return e
+	if deleteMergeSet == nil {
+		logger.GetLogger().Info("new db and didn't execute drop, no need to delete")
+		return nil
+	}
+	deleteMergeSet.tb.SetLabelForDeletePart()
+
+	delTsids := withDeleted.GetDeletedTSIDs()
+	if delTsids == nil || delTsids.Len() <= 0 {
+		return nil
+	}
+
+	var errs []error
+	for _, idx := range idxs {
+		e := idx.tb.RemoveItemsByDelTsidsFromParts(delTsids)
+		if e == nil {
+			// the caches still name the purged tsids (the series-key cache is also saved at close):
+			// once the deleted-tsid table is emptied nothing would subtract them any more
+			e = idx.ClearCache()
+		}
+		if e != nil {
+			errs = append(errs, e)
+		}
+	}
+	if len(errs) > 0 {
+		return errors.Join(errs...)
+	}
+	deleteMergeSet.tb.RemoveDeletedPart()
+	return nil
 }
 
 func (iBuilder *IndexBuilder) DeleteMsts(msts []string, onlyUseDiskThreshold uint64) error {
